@@ -25,6 +25,9 @@ func Compile(root *Module) error {
 type compiler struct {
 	root *Module
 	pool map[HasDefinitions]struct{}
+
+	// typedefs whose type is being compiled, to detect a typedef that refers to itself
+	typedefsInProgress map[*Typedef]struct{}
 }
 
 func (c *compiler) module(y *Module) error {
@@ -419,7 +422,16 @@ func (c *compiler) findTypedef(y *Type, parent Definition, qualifiedIdent string
 	}
 
 	// this will recurse if typedef references another typedef
-	if err := c.compile(found); err != nil {
+	if _, cycle := c.typedefsInProgress[found]; cycle {
+		return nil, errors.New(SchemaPath(parent) + " - typedef " + y.ident + " is defined in terms of itself")
+	}
+	if c.typedefsInProgress == nil {
+		c.typedefsInProgress = make(map[*Typedef]struct{})
+	}
+	c.typedefsInProgress[found] = struct{}{}
+	err := c.compile(found)
+	delete(c.typedefsInProgress, found)
+	if err != nil {
 		return nil, err
 	}
 
